@@ -1,2 +1,5 @@
+pub mod faults;
 pub mod g01;
+pub mod g02;
+pub mod g05;
 pub mod templates;
